@@ -515,7 +515,7 @@ Proof.
   set (v := validate_with (custom_validate o ideal) o ideal cat raw) in *.
   rewrite Hty. remember (raw_kind raw) as kind eqn:Ek. remember (v_image v) as g eqn:Eg.
   clear Ha Ek Eg v Hty.
-  unfold may_init, may_handle. rewrite Hnull. cbn [orb q_wr_zero_total q_fallback_nil_resp ideal andb].
+  unfold may_init, may_handle. rewrite Hnull. cbn [orb q_wr_zero_total q_fallback_nil_resp q_stream_compress ideal andb].
   split.
   - repeat apply orb_false; apply andb_guard; intro E.
     + apply String.eqb_eq in E. subst kind. destruct (kind_RateLimiter _ _ Hk) as [Ht _]. rewrite Ht in *.
@@ -670,6 +670,7 @@ Lemma refuted_retry_jitter : exists c, refutes 8 c. Proof. exists w_retry_jitter
 Lemma refuted_builder_template : exists c, refutes 9 c. Proof. exists w_builder_template. refute. Qed.
 Lemma refuted_topic_index : exists c, refutes 10 c. Proof. exists w_topic_index. refute. Qed.
 Lemma refuted_flow_namespace : exists c, refutes 11 c. Proof. exists w_flow_namespace. refute. Qed.
+Lemma refuted_stream_compress : exists c, refutes 12 c. Proof. exists w_stream_compress. refute. Qed.
 
 (** non-vacuity: a concrete RateLimiter document is accepted by the repaired validation *)
 Example RateLimiter_nonvacuous :
